@@ -713,7 +713,7 @@ theorem updateW_only (pr : PrInfo) : ∀ (ds : List Dest) (l : Loc) (prev : Comm
           exact h1.trans ((updateW_only pr ds l' c _).mono (fun _ h => List.mem_cons_of_mem _ h))
 
 /-- the branches recorded as updated are integration branches of the pull request for the targets given -/
-theorem updateW_done_w (pr : PrInfo) : ∀ (ds : List Dest) (l : Loc) (prev : Commit) (done : List Ref) (all : List Dest),
+theorem updateW_done_w_prs (pr : PrInfo) : ∀ (ds : List Dest) (l : Loc) (prev : Commit) (done : List Ref) (all : List Dest),
     (∀ d ∈ ds, d ∈ all) → (∀ r ∈ done, ∃ d ∈ all, r = .w d pr.src) →
     ∀ r ∈ (updateW l pr prev ds done).2.1, ∃ d ∈ all, r = .w d pr.src
   | [], _, _, _, _, _, hd => hd
@@ -731,7 +731,7 @@ theorem updateW_done_w (pr : PrInfo) : ∀ (ds : List Dest) (l : Loc) (prev : Co
         | none => exact hd
         | some c =>
           simp only
-          apply updateW_done_w pr ds l' c _ all (fun d' h => hsub d' (List.mem_cons_of_mem _ h))
+          apply updateW_done_w_prs pr ds l' c _ all (fun d' h => hsub d' (List.mem_cons_of_mem _ h))
           intro r hr
           rcases List.mem_append.mp hr with h | h
           · exact hd r h
@@ -827,7 +827,7 @@ theorem prepare_wok (s : Sys) (pr : PrInfo) (sc dc : Commit) (orc : List Bool) :
         · simp only [List.mem_cons, List.not_mem_nil, or_false] at hop
           subst hop
           apply push_w_ok
-          exact updateW_done_w pr _ _ _ _ _ (fun _ h => h) (fun _ h => nomatch h)
+          exact updateW_done_w_prs pr _ _ _ _ _ (fun _ h => h) (fun _ h => nomatch h)
       · cases hp
   · intro l4 ops hp
     unfold prepare at hp
@@ -993,25 +993,25 @@ theorem directMerge_wok {S : Dest → String → Prop} {base : RefMap} {s : Sys}
             rw [Loc.merge_other hm1 (.w d src) (fun he => nomatch he)] at h1
             exact hl4 d src c (get_delRefs_some h1).1
 
-theorem mergeTargets_other (pr : Nat) (src : String) : ∀ (ts : List Dest) (m : RefMap) (x : Ref), (∀ d, x ≠ .dest d) →
+theorem mergeTargets_other_prs (pr : Nat) (src : String) : ∀ (ts : List Dest) (m : RefMap) (x : Ref), (∀ d, x ≠ .dest d) →
     (mergeTargets pr src m ts).get x = m.get x
   | [], _, _, _ => rfl
   | t :: ts, m, x, hx => by
     simp only [mergeTargets, List.foldl_cons]
-    have := mergeTargets_other pr src ts
+    have := mergeTargets_other_prs pr src ts
     simp only [mergeTargets] at this
     rw [this _ x hx]
     cases m.get (.qw pr t src) with
     | none => rfl
     | some c => exact RefMap.get_set_ne _ _ (hx t)
 
-theorem mergeEntries_other : ∀ (es : List QEntry) (m : RefMap) (x : Ref), (∀ d, x ≠ .dest d) →
+theorem mergeEntries_other_prs : ∀ (es : List QEntry) (m : RefMap) (x : Ref), (∀ d, x ≠ .dest d) →
     (es.foldl mergeEntry m).get x = m.get x
   | [], _, _, _ => rfl
   | e :: es, m, x, hx => by
     simp only [List.foldl_cons]
-    rw [mergeEntries_other es _ x hx]
-    exact mergeTargets_other e.pr e.src e.targets m x hx
+    rw [mergeEntries_other_prs es _ x hx]
+    exact mergeTargets_other_prs e.pr e.src e.targets m x hx
 
 /-- the queue merge: one atomic push that creates or moves no `w/` ref at all -/
 theorem planQueues_wok (S : Dest → String → Prop) (s : Sys) (sel : List Nat) :
@@ -1025,7 +1025,7 @@ theorem planQueues_wok (S : Dest → String → Prop) (s : Sys) (sel : List Nat)
     subst hop
     intro d src c hc
     have h1 := (get_delRefs_some hc).1
-    rw [mergeEntries_other _ _ (.w d src) (fun _ he => nomatch he)] at h1
+    rw [mergeEntries_other_prs _ _ (.w d src) (fun _ he => nomatch he)] at h1
     exact Or.inl h1
 
 /-- **Every operation of a pull-request evaluation creates or moves no `w/` ref other than the integration
